@@ -19,7 +19,7 @@ LEVEL_TEXT = ('Unbounded Lean theorems: (1) distance criterion and packing bound
               'generators, all products computed in the lanes of one number; exhaustive certificates: enumeration of '
               'every Pauli of weight < d on per-qubit effect tables, sound by bilinearity of the symplectic form and '
               'C04). Instance theorems: for all 16 exported classes, every supported size up to the table bound (2-D '
-              'L<=6, 3-D L<=4, n<=400; 454 of 462 instances) has IsDistance n H code.d, kernel-checked (decide +kernel) '
+              'L<=6, 3-D L<=4, n<=400; 455 of 462 instances) has IsDistance n H code.d, kernel-checked (decide +kernel) '
               'on tables and certificates regenerated from /repo on every run, so the theorems are re-proved against '
               'the current source. The model of `d` (min weight over listed logicals) is tied to code.d by a '
               'differential stream over all table sizes and deformations.')
@@ -27,8 +27,8 @@ LEVEL_NOTE = ('trusted: Lean kernel + standard axioms; translator harness/regen_
               'current source emits); certificate search harness/regen_dist.py is NOT trusted (Lean checks every '
               'certificate). Not covered by a kernel-checked theorem (no certificate found: 6.6.6 colour codes have '
               'd*d > n so disjoint representatives cannot exist, and the enumeration below d is too large): '
-              'Color666PlanarCode L=2..6 and Color666ToricCode L=2..4; Color666PlanarCode L=2 is checked natively '
-              '(native_checked, thorough tier). Sizes beyond the table bound and deformed codes are evaluated natively '
+              'Color666PlanarCode L=3..6 and Color666ToricCode L=2..4; Color666PlanarCode L=3 is checked natively '
+              '(native_checked, thorough tier: 5.7 million pure X/Z operators below d=7). Sizes beyond the table bound and deformed codes are evaluated natively '
               'with the same proved-sound checker (trusted in addition: Lean compiler/runtime). All-sizes (unbounded '
               'in L) lattice theorems are not proved; instance theorems are named ..._partial.')
 TECHNIQUE = ('Lean 4 proof: certificate-checker soundness (unbounded) + kernel-checked instance theorems over tables '
@@ -36,7 +36,7 @@ TECHNIQUE = ('Lean 4 proof: certificate-checker soundness (unbounded) + kernel-c
              'meet-in-the-middle / MILP search for lighter logical operators on the implementation')
 TRUSTED = ['translator harness/regen_codes.py (packs code.stabilizer_matrix / logicals_x / logicals_z / d as emitted '
            'by the current source)',
-           'native_checked: deformed codes, sizes beyond the kernel table bound and Color666PlanarCode(2,2) are '
+           'native_checked: deformed codes, sizes beyond the kernel table bound and Color666PlanarCode(3,3) are '
            'evaluated by the compiled driver (same proved-sound checker)']
 ASSUMPTIONS = ['supported lattice families as fixed in DESIGN.md section 4',
                'validity of the codes (premise of the distance theorems) is the kernel-checked C01 instance table']
@@ -47,7 +47,7 @@ RULE = ('stream 1: one `dist` op per (class, size, deformation): model distance 
 
 # instances of the regenerated tables for which no certificate is expected (see LEVEL_NOTE)
 EXPECTED_UNCERTIFIED = {
-    ('Color666PlanarCode', (2, 2)), ('Color666PlanarCode', (3, 3)), ('Color666PlanarCode', (4, 4)),
+    ('Color666PlanarCode', (3, 3)), ('Color666PlanarCode', (4, 4)),
     ('Color666PlanarCode', (5, 5)), ('Color666PlanarCode', (6, 6)),
     ('Color666ToricCode', (2, 2)), ('Color666ToricCode', (3, 3)), ('Color666ToricCode', (4, 4)),
 }
@@ -60,7 +60,7 @@ def regen(ctx):
     per: Dict[str, Dict[str, int]] = {}
     unc = []
     for i in dist['instances']:
-        p = per.setdefault(i['class'], {'packing': 0, 'exhaustive': 0, 'uncertified': 0})
+        p = per.setdefault(i['class'], {'packing': 0, 'exhaustive': 0, 'css': 0, 'uncertified': 0})
         p[i['kind'] or 'uncertified'] += 1
         if i['kind'] is None:
             unc.append((i['class'], tuple(i['size'])))
@@ -470,8 +470,10 @@ def correspondence(ctx):
         if bigger:
             for i in sorted(rng.choice(len(bigger), min(len(bigger), 4 if ctx.thorough else 1), replace=False)):
                 chosen.append((bigger[i], defs[int(rng.integers(0, len(defs)))]))
-        if cls == 'Color666PlanarCode' and ctx.thorough:
+        if cls == 'Color666PlanarCode':
             chosen.append(((2, 2), defs[0]))
+            if ctx.thorough:
+                chosen.append(((3, 3), defs[0]))     # 5.7 million pure-type operators below d = 7
         for size, deform in chosen:
             label = f'{cls}{tuple(size)}/{K.deform_tag(deform)}'
             try:
@@ -500,13 +502,23 @@ def correspondence(ctx):
                     s2.add(f'{head} P:{nat_list(bad)}', f'{rep} 0', {'code': label, 'cert': 'packing, duplicated'},
                            tag='negative:duplicate-representative')
             else:
+                letter, kind = ('E', 'exhaustive') if cert[0] == 'exhaustive' else ('C', 'css')
+                if kind == 'css' and not D.is_css(inst):
+                    letter, kind = 'E', 'exhaustive'      # a deformed code need not be CSS
+                    if D.exhaustive_count(inst.n, inst.d) > budget:
+                        s2.hist['no-certificate'] = s2.hist.get('no-certificate', 0) + 1
+                        continue
                 ref = exhaustive_reference(inst)
                 if ref is not None:
-                    s2.add(f'{head} E', f'{rep} {1 if ref else 0}', {'code': label, 'cert': 'exhaustive'},
-                           tag=tagb + ':exhaustive')
+                    s2.add(f'{head} {letter}', f'{rep} {1 if ref else 0}', {'code': label, 'cert': kind},
+                           tag=tagb + ':' + kind)
                 else:
-                    s2.add(f'{head} E', f'{rep} 1', {'code': label, 'cert': 'exhaustive (no python reference)'},
-                           tag=tagb + ':exhaustive-noref')
+                    s2.add(f'{head} {letter}', f'{rep} 1', {'code': label, 'cert': kind + ' (no python reference)'},
+                           tag=tagb + ':' + kind + '-noref')
+                if kind == 'exhaustive' and D.is_css(inst):
+                    # the CSS-restricted enumeration must agree on CSS codes
+                    s2.add(f'{head} C', f'{rep} {1 if ref or ref is None else 0}', {'code': label, 'cert': 'css'},
+                           tag=tagb + ':css-too')
             # overstated distance: must be rejected when the enumeration is affordable
             if D.exhaustive_count(inst.n, inst.d + 1) <= (2_000_000 if ctx.thorough else 100_000) and inst.d + 1 <= 5 \
                     and not (inst.d >= 3 and inst.n > 110):
